@@ -33,6 +33,10 @@ def gen(seed, tier):
             case["dfltB"] = rng.choice([v for v in (0, 7, -1) if v != dflt])
         b = H.gen_tree(rng, d + 1, n, pool, case.get("dfltB", dflt))
         case.update({"a": a, "b": b})
+        if kind == "owned" and rng.random() < 0.3:
+            # fibers built with their own default 0 inside a tensor of another default: emptiness is judged by
+            # the owning rank's default
+            case["fib0"] = True
         if kind == "owned" and rng.random() < 0.35:
             # the ranks BELOW the co-iterated (compressed) rank declared uncompressed, per operand: whether an
             # element of the top rank is empty does not depend on how the ranks below would be iterated
@@ -72,6 +76,13 @@ def gen(seed, tier):
                     yield {"prop": PROP, "op": op, "d": 0, "dflt": 0, "ops": [a, b, c], "kind": "free"}
                 yield {"prop": PROP, "op": "nand", "d": 0, "dflt": 0, "ops": [a, b, c], "kind": "free",
                        "form": ("right", "left", "hoisted")[k % 3]}
+                # n-ary intersection with ONE operand (any position) of a rank declared uncompressed: it presents
+                # its whole active range even when it stores nothing (own rank attributes or tensor)
+                u = k % 3
+                loN, shN = ((0, 3), (1, 3), (0, 2))[(k // 3) % 3]
+                yield {"prop": PROP, "op": "nand", "d": 0, "dflt": 0, "ops": [a, b, c], "kind": "free",
+                       "fmtN": [{"fmt": "U", "lo": loN, "sh": shN, "own": bool(k % 2)} if i == u else None
+                                for i in range(3)]}
                 # leader-follower with the LEADER's rank declared uncompressed (own rank attributes or tensor)
                 lo0, sh0 = ((0, 3), (1, 3), (0, 2))[k % 3]
                 yield {"prop": PROP, "op": "lf", "d": 0, "dflt": 0, "ops": [a, b, c], "kind": "free",
@@ -226,6 +237,21 @@ def _run_nary(case):
             tensors.append(tt)
             f = tt.getRoot()
         fibers.append(f)
+    for i, fm in enumerate(case.get("fmtN") or []):
+        if not fm:
+            continue
+        t_i = case["ops"][i]
+        if fm["own"]:
+            f_i = ft.Fiber([c for c, _ in t_i], [v for _, v in t_i], default=dflt, shape=3,
+                           active_range=(fm["lo"], fm["sh"]))
+            f_i.getRankAttrs().setFormat("U")
+        else:
+            tt_i = ft.Tensor.fromFiber(rank_ids=["K"], fiber=fibers[i], shape=[fm["sh"]], default=dflt)
+            tt_i.setFormat("K", "U")
+            tensors.append(tt_i)
+            f_i = tt_i.getRoot()
+            fm["lo"] = 0
+        fibers[i] = f_i
     if case.get("fmt0") == "U":
         t0 = case["ops"][0]
         if case.get("own0"):
@@ -302,6 +328,9 @@ def run(case):
     leafA = leafB = leaf
     fa = H.build_fiber(case["a"], d + 1, dflt)
     fb = H.build_fiber(case["b"], d + 1, dfltB)
+    if case.get("fib0") and case["kind"] == "owned" and not case.get("fdflt"):
+        fa = H.build_fiber(case["a"], d + 1, 0)
+        fb = H.build_fiber(case["b"], d + 1, 0)
     tensors = []
     if case["kind"] == "fmt" and case.get("own"):
         def own(tree, fmt, lo, hi):
